@@ -31,7 +31,9 @@ CHECKS = {
          "explicit-state BFS to closure over the product (real queue registers, reference list); one fresh elaboration + history replay per transition",
          "Every RTL queue of stdlib/queues/queues.py, enrdy_queues.py and stream/queues.py and every CL queue, capacities 1..3 (6 thorough), messages {1,2,3} "
          "and a struct entry type, is driven by every protocol-legal (enq offer, msg, deq offer) letter from every reachable state; rdy/val, delivered message, "
-         "fire signals and count are compared with a list model each cycle.",
+         "fire signals and count are compared with a list model each cycle. The CL<->RTL adapters of stdlib/ifcs/send_recv_ifcs.py are exercised in chains CL producer -> RecvCL2SendRTL -> "
+         "en/rdy queue -> RecvRTL2SendCL -> CL consumer (inserted by connect()) for every offer sequence of length <= 4 (6): delivered is a prefix of accepted, buffering is bounded, "
+         "nothing is lost after draining.",
          "Trusted: vt/fifo.py (40 lines) and the en/rdy clipping loop of the harness. valrdy_queues.py is unimportable on this tree and therefore not covered. "
          "Reset mid-history is not part of the property and not explored.",
          "DESIGN.md 6.C17", "E1 E4"),
